@@ -145,6 +145,9 @@ package diff
 // ---- C09 / C04: the forward and reverse instruction maps stay in lock-step, and "preserved" means nothing is left over
 //@ pred lockstep(z *Zipper) = forall a: ssa.Instruction :: (a in z.instrMap) ==> (z.instrMap[a] in z.revInstrMap) && z.revInstrMap[z.instrMap[a]] == a
 
+// Both maps are written by recordInstrMatch alone: a pairing recorded anywhere else could leave them out of step.
+//@ mapwriters [C09.maps] [C04.maps] Zipper.instrMap only (*Zipper).recordInstrMatch
+//@ mapwriters [C09.maps] [C04.maps] Zipper.revInstrMap only (*Zipper).recordInstrMatch
 //@ func (*Zipper).recordInstrMatch
 //@   requires z != nil && z.instrMap != nil && z.revInstrMap != nil && z.instrMap != z.revInstrMap && lockstep(z)
 //@   requires [C09.maps] (old in z.instrMap) || !(new in z.revInstrMap)
